@@ -9,7 +9,15 @@
      T cps                              -> Document::new_plain_english(text).tokens as kind classes (ASCII text; C02's
                                            lexer + the nine passes, Model/C12Doc.run_doc): "T c s e w c s e w ..." with
                                            w = twin_loc + 1 (0 = none) / "T -" / PANIC
-     L cps                              -> PlainEnglish.parse(text) likewise (run_raw): "L c s e w ..." *)
+     L cps                              -> PlainEnglish.parse(text) likewise (run_raw): "L c s e w ..."
+     W c s e w c s e w ...              -> UnclosedQuotes::lint on these tokens (w = twin_loc + 1) and, for every guarded
+                                           window body of Tables_c12rules.window_guards in table order, the windows that
+                                           pass the kind guard (Model/C12Windows.run_rules): "W s e,s e | s e | - | ..." *)
+let rec quads_in = function
+  | c :: s :: e :: w :: t -> (nat_of_int c, (nat_of_int s, (nat_of_int e, nat_of_int w))) :: quads_in t
+  | _ -> []
+let spans_str l =
+  if l = [] then "-" else String.concat "," (List.map (fun (s, e) -> Printf.sprintf "%d %d" (int_of_nat s) (int_of_nat e)) l)
 let quads tag r =
   match r with
   | None -> print_endline "PANIC"
@@ -42,6 +50,9 @@ let () =
          | Some [] -> print_endline "R -"
          | Some ls -> print_endline ("R " ^ String.concat ","
                         (List.map (fun (s, e) -> Printf.sprintf "%d %d" (int_of_nat s) (int_of_nat e)) ls)))
+    | 'W' ->
+        let (u, gs) = run_rules (quads_in (ints_of_line body)) in
+        print_endline ("W " ^ String.concat " | " (List.map spans_str (u :: gs)))
     | 'T' -> quads "T" (run_doc (text_of_line body))
     | 'L' -> quads "L" (run_raw (text_of_line body))
     | 'G' ->
